@@ -28,6 +28,10 @@ RULE = (
     "status, index, len, when)."
     " For the authenticated levels the error also arrives in the answer to the request RE-SEN"
     "T after a notInTimeWindow report (device rebooted since discovery)."
+    " multiget with 130/300 bindings and error-index around 127/128, 256/257 and the end of t"
+    "he list; every shard begins with a thread stress (eight threads build their first error "
+    "exceptions, six run their first failing exchange, GIL yielded at a third of the library'"
+    "s statements)."
 )
 ASSUMPTIONS = [
     "an error response echoes the request's bindings (RFC 3416 4.2.x), tooBig may carry an empty list",
